@@ -41,7 +41,7 @@ CHECKS = {
          "deviation-bounded exhaustive exploration of environment answers (transport read sizes, buffer sizes, write splits, write faults, transport end at every offset) by re-execution against a two-queue reference",
          "Four scenarios are re-executed from scratch for every perturbation with 0 and 1 deviation (a fragment boundary at every byte offset, a Write split at every offset, a transport end of both kinds at every inbound offset, each transport write failing/short) and a stated family with 2 deviations; plus every permitted record length x content type in both directions. On every execution the bytes moved must be a prefix of the reference stream, complete records must not be withheld, and errors must be reported after the data and stay.",
          "reference stream uses tlsref's reconstruction; quick tier samples offsets away from record/header boundaries (every 17th/23rd/29th), thorough takes every offset", "§3 C07"),
- "C08": ("fault_enumeration", "E1 enum (worker processes)",
+ "C08": ("fault_enumeration", "E1 enum (worker processes) + E3 gosched (deadline clause)",
          "grammar-bounded exhaustive enumeration of hostile inputs on both sides, executed in memory-capped single-threaded worker processes with hang watchdog; panic/progress/retained-heap oracles",
          "Every sequence of up to 2 (3) of 47 well-/ill-formed variants of the interpreted extensions in outer and sealed inner hellos, every length field set to {0,-1,+1,max} singly and pairwise, every message cut, every first-record type, and record/ServerHello/second-hello mutations in both directions after accepted and passed-through hellos are executed on the real Conn; no panic, no zero-progress return, bounded retained heap, no hang. The deadline clause (NewConn returns by its context deadline when the client stalls at any byte) is decided by the scheduler-based check registered with C10's engine.",
          "inputs are grammar-bounded, not arbitrary byte noise; memory measured as retained heap after the call with harness-held bytes subtracted", "§3 C08"),
@@ -131,16 +131,16 @@ def main():
         },
         "engines": [
             {"name": "E1 enum", "path": "internal/enum", "kind_free_text": "deterministic exhaustive small-scope enumeration (odometer, parallel-for)"},
-            {"name": "E2 envx", "path": "internal/envx", "kind_free_text": "deviation-bounded exhaustive exploration of environment answers (chunking, cuts, errors) by re-execution"},
-            {"name": "E3 gosched", "path": "internal/vsched", "kind_free_text": "controlled cooperative scheduler + DFS over schedules with preemption bound, virtual time"},
-            {"name": "E4 hist", "path": "internal/hist", "kind_free_text": "breadth-first history enumeration against an executable reference model, replay on fresh instances"},
+            {"name": "E2 envx", "path": "vsched/explore.go (generic choice-vector explorer), checks/c07, checks/c17, checks/c20 (environment fakes: internal/memnet, internal/cfmem)", "kind_free_text": "deviation-bounded exhaustive exploration of environment answers (chunking, cuts, errors, attempt outcomes, API failures) by re-execution from scratch"},
+            {"name": "E3 gosched", "path": "vsched (runtime + explorer), cmd/instr (source rewriter), checks/vnet (scheduler-aware net.Conn), scripts/build_instr.sh", "kind_free_text": "controlled cooperative scheduler for the real goroutine code (sources rewritten at check time, compiled with -overlay) + DFS over schedules with a deviation bound, virtual time"},
+            {"name": "E4 hist", "path": "checks/c06, checks/c16 (hist.go), checks/c19, checks/c20", "kind_free_text": "exhaustive history enumeration against an executable reference model, every history replayed on a fresh real instance"},
         ],
         "checks": checks,
         "not_applicable": na,
         "notes": "All checks are bounded exhaustive explorations on the real code built from /repo's working tree; see DESIGN.md.",
     }
     for e in m["engines"]:
-        e["serves_properties"] = [c["property_id"] for c in checks if c["engine"].startswith(e["name"].split()[0])]
+        e["serves_properties"] = [c["property_id"] for c in checks if e["name"].split()[0] in c["engine"]]
     json.dump(m, open(os.path.join(ROOT, "MANIFEST.json"), "w"), indent=1)
     print("MANIFEST.json:", len(checks), "checks,", len(na), "not_applicable")
 
